@@ -1,4 +1,5 @@
 import Rv.Props.C07
+import Rv.Props.C09
 #print axioms Rv.Props.C07.parse_total
 #print axioms Rv.Props.C07.parse_in_int64
 #print axioms Rv.Props.C07.slice_inside
@@ -6,3 +7,10 @@ import Rv.Props.C07
 #print axioms Rv.Props.C07.slice_is_requested
 #print axioms Rv.Props.C07.requested_is_served
 #print axioms Rv.Props.C07.unsatisfiable_refused
+#print axioms Rv.Props.C09.never_gateway_error
+#print axioms Rv.Props.C09.status_comes_from_origin
+#print axioms Rv.Props.C09.empty_body_still_served
+#print axioms Rv.Props.C09.served_206_exact
+#print axioms Rv.Props.C09.stored_body_paired
+#print axioms Rv.Props.C09.if_range_mismatch_full
+#print axioms Rv.Props.C09.status_valid
